@@ -696,4 +696,21 @@ def Spec.inDomain (s : Spec ℝ) : Prop :=
   s.kind ≠ Kind.poly ∧ s.ctorOk = true ∧ (s.kind = Kind.arctan → s.p1 ≠ 0) ∧ (s.kind = Kind.tolerant → s.p1 ≤ 50 * (-s.p2))
 
 
+
+/-! ### moved from Props (audit): intermediates in their domains; kernels dominated by the quadratic loss -/
+theorem kernels_domains {δ : ℝ} (hδ : 0 < δ) {a b : ℝ} (hb : b < 0) {x : ℝ} (hx : 0 ≤ x) :
+    δ * δ ≠ 0 ∧ 0 ≤ x ∧                     -- Huber: √x
+    0 < x / (δ * δ) + 1 ∧                    -- PseudoHuber radicand, Cauchy log argument
+    0 < 1 / (δ * δ) + x ∧                    -- SoftLOne radicand
+    b ≠ 0 ∧ 0 < 1 + Real.exp ((x - a) / b) ∧ 0 < 1 + Real.exp (-a / b) := by
+  refine ⟨by positivity, hx, by positivity, by positivity, hb.ne, by positivity, by positivity⟩
+
+/-- (beyond the property text) every kernel is dominated by the quadratic loss it robustifies:
+`ρ(x) ≤ x` on `[0,∞)` (SoftLOne, whose documented form has slope `δ²` at 0: `ρ(x) ≤ δ²x`; Scale needs `δ ≤ 1`). -/
+theorem kernels_le_quadratic {δ : ℝ} (hδ : 0 < δ) {a b : ℝ} (hb : b < 0) {x : ℝ} (hx : 0 ≤ x) :
+    huberV δ x ≤ x ∧ pseudoHuberV δ x ≤ x ∧ cauchyV δ x ≤ x ∧ softLOneV δ x ≤ δ * δ * x ∧ arctanV δ x ≤ x ∧
+    tolerantV a b x ≤ x ∧ (δ ≤ 1 → scaleV δ x ≤ x) :=
+  ⟨huberV_le_self δ hx, pseudoHuberV_le_self hδ hx, cauchyV_le_self hδ hx, softLOneV_le hδ hx,
+   arctanV_le_self hδ.ne' hx, tolerantV_le_self hb hx, fun h1 => scaleV_le_self h1 hx⟩
+
 end PP.Kernel
